@@ -54,6 +54,37 @@ Theorem C17_box_step_output : forall n cf w t rew d tl term,
 Proof. exact box_step_output. Qed.
 Print Assumptions C17_box_step_output.
 
+(* the Dict (per-key) instance: for every key of a Dict observation the wrapper keeps the zero-padded suffix of
+   that key's frames of the current episode; any number of keys, any per-key channel order *)
+Theorem C17_dict_window_is_episode_suffix : forall n cf z k kv0 fevs evs st,
+  1 <= n ->
+  dict_ok k (BReset (ODict kv0)) -> Forall (dict_ok k) evs ->
+  map (key_event k) evs = map Some fevs ->
+  Forall (fun e => tzeros_like (frame_of e) = z) (FReset (lookup k kv0 tempty) :: fevs) ->
+  lookup k (fs_state n cf st (BReset (ODict kv0) :: evs)) []
+  = padded_suffix z n (ep_frames (FReset (lookup k kv0 tempty) :: fevs)).
+Proof. exact dict_window_is_episode_suffix. Qed.
+Print Assumptions C17_dict_window_is_episode_suffix.
+
+Theorem C17_dict_step_output : forall n cf st kv rew d tl term,
+  let st' := fst (w_step (WFrameStack n cf) st (mk_bout (ODict kv) rew d tl term)) in
+  snd (w_step (WFrameStack n cf) st (mk_bout (ODict kv) rew d tl term))
+  = mk_bout (ODict (map (fun '(k, w) => (k, tcat (lookup k cf false) w)) st')) rew d tl
+      (if d then option_map (fun x => match x with
+                                      | ODict tkv => ODict (map (fun '(k, w) => (k, tcat (lookup k cf false) w)) (st_push st x))
+                                      | OBox _ => st_show cf x (st_push st x)
+                                      end) term
+       else term).
+Proof. exact dict_step_output. Qed.
+Print Assumptions C17_dict_step_output.
+
+(* VecTransposeImage on a Dict with any number of image keys: exactly the image keys are transposed *)
+Theorem C17_transpose_dict_keys : forall keys kv k t,
+  NoDup (map fst kv) -> In (k, t) kv ->
+  lookup k (kvs (tr_obs keys (ODict kv))) tempty = if memk k keys then ttranspose t else t.
+Proof. exact transpose_dict_keys. Qed.
+Print Assumptions C17_transpose_dict_keys.
+
 (* --- any stack of wrappers (structural induction on the wrapper list) --- *)
 Theorem C17_passthrough : forall ws sts out,
   b_rew (snd (stack_step ws sts out)) = b_rew out /\ b_done (snd (stack_step ws sts out)) = b_done out /\
@@ -129,3 +160,16 @@ Proof. repeat split; reflexivity. Qed.
 Example ex_shape : t_shape (tcat true [ex_t 1; ex_t 2; ex_t 3]) = [6; 2; 1] /\
                    t_shape (tcat false [ex_t 1; ex_t 2; ex_t 3]) = [2; 2; 3].
 Proof. split; reflexivity. Qed.
+
+(* Dict observation with two keys: hypotheses of the per-key theorem, and two image keys transposed *)
+Definition ex_kv (v : Z) : list (Z * tensor) := [(1%Z, tfull [2] v); (2%Z, ex_t v)].
+Example ex_dict_hyps :
+  dict_ok 2%Z (BReset (ODict (ex_kv 1))) /\
+  map (key_event 2%Z) [BStep (mk_bout (ODict (ex_kv 2)) 0%Z false false None)] = map Some [FStep (ex_t 2) false None] /\
+  lookup 2%Z (fs_state 3 [(1%Z, false); (2%Z, true)] [] [BReset (ODict (ex_kv 1)); BStep (mk_bout (ODict (ex_kv 2)) 0%Z false false None)]) []
+  = [ex_t 0; ex_t 1; ex_t 2].
+Proof. split; [|split]; [split; [repeat constructor; cbn; intuition discriminate|cbn; auto]|reflexivity|reflexivity]. Qed.
+Example ex_two_image_keys :
+  tr_obs [1%Z; 2%Z] (ODict [(1%Z, ex_t 4); (2%Z, tfull [1; 2; 3] 5%Z); (3%Z, tfull [2] 6%Z)])
+  = ODict [(1%Z, mk_tensor [1; 2; 2] [4; 4; 4; 4]%Z); (2%Z, mk_tensor [3; 1; 2] [5; 5; 5; 5; 5; 5]%Z); (3%Z, tfull [2] 6%Z)].
+Proof. reflexivity. Qed.
